@@ -86,6 +86,9 @@ structure Cfg where
   splits : Bool              -- Fork.Split
   argNames : List (Arg × List Path)   -- getMaybeFileNames of the argument's value
   argFiles : List (Arg × List Path)   -- the logical names of those that exist
+  /-- the tables the construction gives every fork of the node (what a restarted mrp rebuilds) -/
+  initArgs : List (Arg × List Holder) := []
+  initPost : List (Node × List Arg) := []
 
 def Cfg.namesOf (c : Cfg) (a : Arg) : List Path := (c.argNames.lookup a).getD []
 def Cfg.filesOf (c : Cfg) (a : Arg) : List Path := (c.argFiles.lookup a).getD []
@@ -261,9 +264,14 @@ inductive Ev
   | nodeDone (n : Node)     -- a consumer node completes or is found disabled
   | nodeFailed (n : Node)   -- a consumer node fails: it is NOT done (it may be reset and run again)
   | nodeReset (n : Node)    -- a failed consumer node is reset for a retry (automatic retry, restart)
+  | restart                 -- mrp dies / is stopped and is started again: the pipestance is rebuilt
+                            -- (NewPipestance: fileArgs / filePostNodes as constructed), the file -> arguments
+                            -- cache is gone; what is on disk stays: files, _vdrkill(.partial) (report,
+                            -- ran_* flags, final), the completion of the nodes
   | removeEmpty
   | cacheMap
-  | early (upto : Nat)   -- partialVdrKill before the fork is complete: temp directories only
+  | early (upto : Nat)   -- partialVdrKill before the fork is complete: temp directories only (split; chunks;
+                         -- in state join_complete — post mode — the join's too)
   | kill
   deriving Repr
 
@@ -271,9 +279,10 @@ def step (c : Cfg) (s : St) : Ev → St
   | .nodeDone n => { s with doneNodes := n :: s.doneNodes }
   | .nodeFailed _ => s
   | .nodeReset _ => s
+  | .restart => { s with fileArgs := c.initArgs, postNodes := c.initPost, cache := none }
   | .removeEmpty => removeEmpty c s
   | .cacheMap => cacheMap c s
-  | .early upto => if s.final then s else cleanTmp c s (min upto 2)
+  | .early upto => if s.final then s else cleanTmp c s (min upto 3)
   | .kill => kill c s
 
 def run (c : Cfg) (s : St) (evs : List Ev) : St := evs.foldl (step c) s
